@@ -14,6 +14,8 @@ import (
 
 type Gen struct {
 	r *rand.Rand
+	// noMutate: generated selectors are exactly the enumerated (resolving) paths
+	noMutate bool
 }
 
 func newGen(seed int64) *Gen { return &Gen{r: rand.New(rand.NewSource(seed))} }
